@@ -11,6 +11,8 @@
      - list case: strconv.ParseInt index parsing, "-" = append, the copy loop, bounds error;
      - link case: load the block, transform inside with the *same* path, store the rebuilt block under
        the same link prototype, assign the new link;
+     - a failing LinkSystem.Store (the codec refuses the block, or the storage fails): the transform
+       fails with nothing stored;
      - every explicit error class, and panics (AssignNode(nil) on the root builder, encoding a block
        that holds a nil node, building a null root).
    Not modelled: budgets (Budget = nil), Progress.Path bookkeeping (only used in messages),
@@ -98,6 +100,7 @@ Inductive xerr :=
 | ELoad       (* "could not load link" *)
 | EWrongKind  (* the root builder refuses the replacement: datamodel.ErrWrongKind *)
 | EOther      (* the root int builder refuses an unsigned value above MaxInt64 *)
+| EStore      (* "error storing transformed node": the block codec refuses the rebuilt block, or the storage fails *)
 | EPanic      (* a Go panic *)
 | EFuel.      (* model artefact: recursion fuel exhausted (never with fuel > path length + link chain) *)
 
@@ -124,6 +127,17 @@ Fixpoint has_nil (v : dm) : bool :=
   | DLink [] => true
   | DList l => existsb has_nil l
   | DMap m => existsb (fun kv => has_nil (snd kv)) m
+  | _ => false
+  end.
+
+(* A link the block codec cannot encode (dag-cbor: "link emission only supported for CID type links",
+   undefined CIDs): written as a link whose binary form starts with the byte 0, which no CID does. *)
+Definition refused_link (c : cid) : bool := match c with 0%N :: _ => true | _ => false end.
+Fixpoint has_refused (v : dm) : bool :=
+  match v with
+  | DLink c => refused_link c
+  | DList l => existsb has_refused l
+  | DMap m => existsb (fun kv => has_refused (snd kv)) m
   | _ => false
   end.
 
@@ -176,6 +190,7 @@ Section Model.
   Variable q : quirks.
   Variable f : option dm -> option dm.     (* the TransformFn: None in = nothing there, None out = remove *)
   Variable cp : bool.                      (* createParents *)
+  Variable fault : bool.                   (* the storage refuses every write during this transform *)
 
   Definition canon (v : dm) : dm := sort_maps ltb v.
 
@@ -309,6 +324,7 @@ Section Model.
                 | Skip => Err EPanic
                 | Put v =>
                     if q_any_nil q && has_nil v then Err EPanic   (* dag-cbor encoder on a nil node *)
+                    else if fault || has_refused v then Err EStore (* LinkSystem.Store fails; nothing was stored *)
                     else let '(c', w2) := store_block v w1 in Ok (Put (DLink c'), w2)
                 end
             end
